@@ -6,7 +6,7 @@ EXTENDS TofuStore, Json, IOUtils, TLCExt
 Cases == JsonDeserialize(IOEnv.TRACE_FILE)
 VARIABLES tid, l
 C == Cases[tid]
-StoreOf(r) == [h \in Hosts |-> IF h = "h1" THEN r.h1 ELSE r.h2]
+StoreOf(r) == [h \in Hosts |-> IF h = "h1" THEN r.h1 ELSE IF h = "h2" THEN r.h2 ELSE r.h3]
 OpOf(o) == [kind |-> o.kind, h |-> o.h, fp |-> o.fp, merge |-> o.merge, entries |-> o.entries, policy |-> o.policy]
 OInit == /\ tid \in 1..Len(Cases) /\ l = 1
          /\ committed = StoreOf(Cases[tid].before) /\ before = StoreOf(Cases[tid].before)
